@@ -341,7 +341,7 @@ def run(ctx):
         names = [nm for nm in names if 1 <= len(nm) <= 4 and nm.isalnum()]
         if names:
             xml_formats[uid] = names
-    nplots = ctx.pick(40, 400)
+    nplots = ctx.pick(40, 1200)
     profiles = ['constant', 'inside', 'ramp', 'spiky', 'huge', 'tiny', 'negative']
     for pi in range(nplots):
         use_xml = (pi % 4 == 3)
